@@ -1,4 +1,6 @@
 """Table reading (DESIGN 5E): evaluated statics/consts -> rows; match-tables (SwitchInt) -> maps."""
+import re
+
 import sym
 from facts import op_local
 
@@ -78,6 +80,9 @@ class TableShape(Exception):
     pass
 
 
+CONV = re.compile(r"impl std::convert::From<(char|u8|u16|u32)> for (u16|u32|u64|usize|i32|i64)>::from$")
+
+
 def scalar_fn(body):
     """Reads a function of one scalar argument whose body consists only of comparisons of the
     argument with constants, switches on the argument, and constant / identity-cast results wrapped
@@ -100,6 +105,56 @@ def scalar_fn(body):
         if t[0] == "c" and t[1] is not None:
             return t[1]
         return None
+    WIDTH = {"u8": 8, "u16": 16, "u32": 32, "u64": 64, "usize": 64, "char": 32, "i8": 8, "i16": 16, "i32": 32, "i64": 64, "isize": 64}
+
+    def evaluable(t):
+        t = sym.strip(t)
+        k = t[0]
+        if k == "arg":
+            return t[1] == 1
+        if k == "c":
+            return isinstance(t[1], int) or (isinstance(t[1], str) and len(t[1]) == 1)
+        if k == "cast":
+            return t[1] == "IntToInt" and evaluable(t[4])
+        if k == "bin":
+            return t[1].replace("WithOverflow", "") in ("Add", "Sub", "BitAnd", "BitOr", "BitXor", "Shl", "Shr", "Rem", "Div", "Mul") and evaluable(t[2]) and evaluable(t[3])
+        if k == "un":
+            return t[1] == "Not" and evaluable(t[2])
+        if k == "field" and isinstance(t[2], int) and t[2] == 0:
+            return evaluable(t[1])       # the value half of a checked (value, overflowed) pair
+        if k == "call" and CONV.search(t[1] or "") and len(t[2]) == 1:
+            return evaluable(t[2][0])    # lossless widening conversion (u32::from(c))
+        return False
+
+    def ev(t, v, bits=32):
+        t = sym.strip(t)
+        k = t[0]
+        if k == "arg":
+            return v
+        if k == "c":
+            return ord(t[1]) if isinstance(t[1], str) else int(t[1])
+        if k == "cast":
+            x = ev(t[4], v, WIDTH.get(t[2], bits))
+            w = WIDTH.get(t[3], 64)
+            x &= (1 << w) - 1
+            if str(t[3]).startswith("i") and x >> (w - 1):
+                x -= 1 << w
+            return x
+        if k == "field":
+            return ev(t[1], v, bits)
+        if k == "call":
+            return ev(t[2][0], v, bits)
+        if k == "un":
+            return ~ev(t[2], v, bits) & ((1 << bits) - 1)
+        a, c = ev(t[2], v, bits), ev(t[3], v, bits)
+        op = t[1].replace("WithOverflow", "")
+        if op in ("Div", "Rem") and c == 0:
+            raise TableShape("division by zero while evaluating")
+        r = {"Add": a + c, "Sub": a - c, "Mul": a * c, "BitAnd": a & c, "BitOr": a | c, "BitXor": a ^ c, "Shl": a << (c & 63), "Shr": a >> (c & 63),
+             "Div": a // c if c else 0, "Rem": a % c if c else 0}[op]
+        if r < 0 or r >> bits:
+            raise TableShape("arithmetic leaves the %d-bit range while evaluating (the function would panic or wrap)" % bits)
+        return r
     breakpoints = set()
     nodes = {}
     for bi in body.rpo():
@@ -129,6 +184,10 @@ def scalar_fn(body):
                 for v, _ in t["arms"]:
                     breakpoints.add(v)
                 nodes[bi] = ("switch-input", {v: tg for v, tg in t["arms"]}, t["otherwise"], res)
+            elif t.get("dty") != "bool" and evaluable(dt):
+                for v, _ in t["arms"]:
+                    breakpoints.add(v)
+                nodes[bi] = ("switch-expr", dt, {v: tg for v, tg in t["arms"]}, t["otherwise"], res)
             else:
                 d = sym.strip(dt)
                 if d[0] == "bin" and d[1] in ("Lt", "Le", "Gt", "Ge", "Eq", "Ne"):
@@ -139,7 +198,17 @@ def scalar_fn(body):
                         from guards import CMP_FLIP
                         op, k = CMP_FLIP[d[1]], const_of(a)
                     else:
-                        raise TableShape("comparison in bb%d does not compare the argument with a constant: %s" % (bi, sym.show(d)))
+                        # a comparison of two expressions over the argument (`c & !0x80 == k`, `c - base < n`): evaluated numerically
+                        if not (evaluable(a) and evaluable(b)):
+                            raise TableShape("comparison in bb%d does not compare the argument with a constant: %s" % (bi, sym.show(d)))
+                        false_t = [tg for v, tg in t["arms"] if v == 0]
+                        if len(t["arms"]) != 1 or not false_t:
+                            raise TableShape("bool switch with unexpected arms in bb%d" % bi)
+                        for x in sym.walk(d):
+                            if x[0] == "c" and isinstance(x[1], int) and not isinstance(x[1], bool):
+                                breakpoints.add(x[1])
+                        nodes[bi] = ("cmp2", d[1], a, b, t["otherwise"], false_t[0], res)
+                        continue
                     breakpoints.add(k)
                     false_t = [tg for v, tg in t["arms"] if v == 0]
                     if len(t["arms"]) != 1 or not false_t:
@@ -148,6 +217,11 @@ def scalar_fn(body):
                 else:
                     raise TableShape("switch in bb%d on %s" % (bi, sym.show(d)))
         elif t["k"] == "goto":
+            nodes[bi] = ("goto", t["target"], res)
+        elif t["k"] == "call" and CONV.search(t["callee"].get("rpath") or t["callee"].get("path") or "") and t.get("target") is not None:
+            nodes[bi] = ("goto", t["target"], res)
+        elif t["k"] == "assert" and t.get("target") is not None:
+            # overflow / bounds assertion of an arithmetic step: the numeric evaluation reports a value that leaves its range
             nodes[bi] = ("goto", t["target"], res)
         elif t["k"] == "return":
             nodes[bi] = ("return", res)
@@ -174,6 +248,13 @@ def scalar_fn(body):
                 bb = n[1]
             elif n[0] == "switch-input":
                 bb = n[1].get(v, n[2])
+            elif n[0] == "switch-expr":
+                bb = n[2].get(ev(n[1], v), n[3])
+            elif n[0] == "cmp2":
+                _, op, ta, tc, tb, fb, _r = n
+                x, k = ev(ta, v), ev(tc, v)
+                ok = {"Lt": x < k, "Le": x <= k, "Gt": x > k, "Ge": x >= k, "Eq": x == k, "Ne": x != k}[op]
+                bb = tb if ok else fb
             else:
                 _, op, k, tb, fb, _r = n
                 ok = {"Lt": v < k, "Le": v <= k, "Gt": v > k, "Ge": v >= k, "Eq": v == k, "Ne": v != k}[op]
